@@ -1,35 +1,87 @@
 package c09
 
 import (
-	"bytes"
 	"context"
 	"fmt"
 	"os"
 	"strings"
 	"testing"
 
-	"github.com/google/gce-tcb-verifier/extract/extractsev"
 	"github.com/google/gce-tcb-verifier/gcetcbendorsement"
-	epb "github.com/google/gce-tcb-verifier/proto/endorsement"
 	"github.com/google/gce-tcb-verifier/sev"
-	"github.com/google/gce-tcb-verifier/verify"
 	spb "github.com/google/go-sev-guest/proto/sevsnp"
-	"google.golang.org/protobuf/proto"
-	"google.golang.org/protobuf/types/known/timestamppb"
 	"pgregory.net/rapid"
 
 	"verif/internal/attest"
 	"verif/internal/ev"
-	"verif/internal/pki"
 )
 
-type bucketGetter struct{ objects map[string][]byte }
+// The attestations of the SevValidate sequences: "<measurement>/<what the certificate table carries>".
+// Measurement A, B (two firmwares with their own endorsements) or X (endorsed by nobody); the table
+// carries nothing (-> bucket fetch), the firmware's own endorsement, that endorsement with a
+// corrupted signature, the OTHER firmware's endorsement, or (X) firmware A's endorsement.
+var svKinds = []string{"A/bucket", "B/bucket", "A/own", "B/own", "A/corrupt", "B/corrupt", "A/other", "B/other", "X/bucket", "X/A"}
 
-func (g *bucketGetter) Get(url string) ([]byte, error) {
-	if b, ok := g.objects[url]; ok {
-		return b, nil
+func (f *fixture) svAttestation(kind string) *spb.Attestation {
+	parts := strings.Split(kind, "/")
+	meas := map[string][]byte{"A": measEndorsed4, "B": measB4, "X": measBad}[parts[0]]
+	own, other := f.blobA, f.blobB
+	if parts[0] == "B" {
+		own, other = f.blobB, f.blobA
 	}
-	return nil, fmt.Errorf("404 %s", url)
+	var extras map[string][]byte
+	switch parts[1] {
+	case "own":
+		extras = map[string][]byte{sev.GCEFwCertGUID: own}
+	case "corrupt":
+		extras = map[string][]byte{sev.GCEFwCertGUID: corruptSignature(own)}
+	case "other":
+		extras = map[string][]byte{sev.GCEFwCertGUID: other}
+	case "A":
+		extras = map[string][]byte{sev.GCEFwCertGUID: f.blobA}
+	}
+	return attest.SnpAttestation(meas, extras)
+}
+
+// svMustReject: the measurement is endorsed by nobody; or the endorsement in use is not the
+// firmware's genuine one. With SevValidateOptions.Endorsement configured (firmware A's) that one is
+// in use whatever the certificate table carries.
+func svMustReject(c svCfg, kind string) bool {
+	parts := strings.Split(kind, "/")
+	if parts[0] == "X" {
+		return true
+	}
+	if c.fixed {
+		return parts[0] == "B"
+	}
+	return parts[1] == "corrupt" || parts[1] == "other"
+}
+
+func (c svCfg) label(vmsas uint32) string {
+	var l []string
+	l = append(l, fmt.Sprintf("vmsas=%d", vmsas))
+	if c.fixed {
+		l = append(l, "opts.Endorsement")
+	}
+	if c.base {
+		l = append(l, "base-policy")
+	}
+	if c.overwrite {
+		l = append(l, "overwrite")
+	}
+	if c.forceGCS {
+		l = append(l, "force-gcs")
+	}
+	return strings.Join(l, ",")
+}
+
+func guardSV(f func() error) (err error) {
+	defer func() {
+		if r := recover(); r != nil {
+			err = fmt.Errorf("PANIC: %v", r)
+		}
+	}()
+	return f()
 }
 
 // One SevValidateOptions value shared by successive SevValidate calls on different attestations:
@@ -40,85 +92,81 @@ func TestSevValidateSharedOptions(t *testing.T) {
 		t.Skip()
 	}
 	const name = "sevvalidate/shared-options"
-	ev.Rule(name, "one gcetcbendorsement.SevValidateOptions (roots, time, bucket getter; Endorsement unset or set) reused for 2-6 successive SevValidate calls; each call's attestation: measurement of firmware A or B or unendorsed, endorsement source {none -> bucket fetch, own genuine endorsement in the certificate table, endorsement with a corrupted signature in the table, the OTHER firmware's endorsement in the table}; oracle: accept/reject equals the result with a fresh options value, and the shared options (Endorsement pointer, base policy, flags) are unchanged afterwards; non-trivial = sequence contains a bucket fetch followed by a call with a different attestation; distinct = (sequence of attestation kinds)")
+	ev.Rule(name, "one gcetcbendorsement.SevValidateOptions (roots, time, bucket getter; drawn: ExpectedLaunchVmsas 0/4, BasePolicy unset/set, Overwrite, Endorsement unset/firmware A's, TestonlyForceGCS) reused for 2-6 successive SevValidate calls; each call's attestation: measurement of firmware A or B or unendorsed, endorsement source {none -> bucket fetch, own genuine endorsement in the certificate table, endorsement with a corrupted signature in the table, the OTHER firmware's endorsement in the table}; oracle: accept/reject equals the result with a fresh equally configured options value now and before anything was shared in this process; an unendorsed measurement, a corrupted or another firmware's endorsement in use is rejected; the shared options (Endorsement pointer, base policy content, flags) are unchanged afterwards; non-trivial = the sequence contains two different attestation kinds, the second following an accepted call; distinct = (configuration, sequence of attestation kinds)")
 	f := newFixture()
-	measA, measB := measEndorsed4, bytes.Repeat([]byte{0xb4}, 48)
-	mk := func(meas []byte) ([]byte, *epb.VMLaunchEndorsement) {
-		g := &epb.VMGoldenMeasurement{Timestamp: timestamppb.New(t0), ClSpec: 1, Digest: make([]byte, 48),
-			SevSnp: &epb.VMSevSnp{Measurements: map[uint32][]byte{4: meas}, Policy: 0x70000, FamilyId: make([]byte, 16), ImageId: make([]byte, 16)}}
-		e := pki.Endorse(g, f.signCert.Raw, pki.Key(1))
-		b, _ := proto.Marshal(e)
-		return b, e
-	}
-	endA, _ := mk(measA)
-	endB, _ := mk(measB)
-	corrupt := func(b []byte) []byte {
-		e := &epb.VMLaunchEndorsement{}
-		proto.Unmarshal(b, e)
-		e.Signature = append([]byte(nil), e.Signature...)
-		e.Signature[5] ^= 0x40
-		out, _ := proto.Marshal(e)
-		return out
-	}
-	url := func(m []byte) string { return verify.GCETcbURL(extractsev.GCETcbObjectName(sev.GCEUefiFamilyID, m)) }
-	objects := map[string][]byte{url(measA): endA, url(measB): endB}
-	kinds := []string{"A/bucket", "B/bucket", "A/own", "B/own", "A/corrupt", "B/corrupt", "A/other", "B/other", "X/bucket", "X/A"}
-	build := func(kind string) *spb.Attestation {
-		parts := strings.Split(kind, "/")
-		meas := map[string][]byte{"A": measA, "B": measB, "X": measBad}[parts[0]]
-		own, other := endA, endB
-		if parts[0] == "B" {
-			own, other = endB, endA
-		}
-		var extras map[string][]byte
-		switch parts[1] {
-		case "own":
-			extras = map[string][]byte{sev.GCEFwCertGUID: own}
-		case "corrupt":
-			extras = map[string][]byte{sev.GCEFwCertGUID: corrupt(own)}
-		case "other":
-			extras = map[string][]byte{sev.GCEFwCertGUID: other}
-		case "A":
-			extras = map[string][]byte{sev.GCEFwCertGUID: endA}
-		}
-		return attest.SnpAttestation(meas, extras)
-	}
-	fresh := func() *gcetcbendorsement.SevValidateOptions {
-		return &gcetcbendorsement.SevValidateOptions{RootsOfTrust: pki.Pool(nil), Now: t0, Getter: &bucketGetter{objects: objects}}
-	}
-	roots := pki.Pool(nil)
-	roots.AddCert(f.root)
 	ctx := context.Background()
-	rapid.Check(t, func(rt *rapid.T) {
-		seq := rapid.SliceOfN(rapid.SampledFrom(kinds), 2, 6).Draw(rt, "sequence")
-		shared := fresh()
-		shared.RootsOfTrust = roots
-		before := fmt.Sprintf("%p %v %v %v", shared.Endorsement, shared.BasePolicy, shared.Overwrite, shared.ExpectedLaunchVmsas)
-		sawFetch, nontrivial := false, false
-		for i, k := range seq {
-			iso := fresh()
-			iso.RootsOfTrust = roots
-			want := gcetcbendorsement.SevValidate(ctx, build(k), iso)
-			got := gcetcbendorsement.SevValidate(ctx, build(k), shared)
-			if (got == nil) != (want == nil) {
-				key := "C09/result-differs-from-isolated"
-				if got == nil {
-					key = "C09/unendorsed-accepted-under-interleaving"
+	// verdicts alone, before anything is shared; what must be rejected first
+	pristine := map[string]bool{}
+	var cfgs []svCfg
+	for i := 0; i < 16; i++ {
+		cfgs = append(cfgs, svCfg{fixed: i&1 != 0, base: i&2 != 0, overwrite: i&4 != 0, forceGCS: i&8 != 0})
+	}
+	key := func(c svCfg, vmsas uint32, kind string) string { return c.label(vmsas) + "|" + kind }
+	for _, wantReject := range []bool{true, false} {
+		for _, c := range cfgs {
+			for _, vmsas := range []uint32{0, 4} {
+				for _, k := range svKinds {
+					if svMustReject(c, k) != wantReject {
+						continue
+					}
+					acc := guardSV(func() error {
+						return gcetcbendorsement.SevValidate(ctx, f.svAttestation(k), newSevValidateOptions(f, vmsas, c))
+					}) == nil
+					pristine[key(c, vmsas, k)] = acc
+					if acc && wantReject {
+						ev.Class(name, "inconclusive/isolated-verdict-not-as-expected")
+						ev.Note("%s: configuration %s kind %s is accepted alone with fresh options although the harness expects a rejection; absolute expectation disabled for it", name, c.label(vmsas), k)
+					}
 				}
-				ev.Violation(rt, key, "SevValidate with a shared options value, sequence %v: call %d (%s) got %s (%v) but %s with fresh options (%v)", seq, i, k, okStr(got), got, okStr(want), want)
+			}
+		}
+	}
+	checks(ev.Scale(150, 2000))
+	rapid.Check(t, func(rt *rapid.T) {
+		c := svCfg{
+			fixed:     rapid.IntRange(0, 3).Draw(rt, "fixed") == 0,
+			base:      rapid.Bool().Draw(rt, "base"),
+			overwrite: rapid.Bool().Draw(rt, "overwrite"),
+			forceGCS:  rapid.IntRange(0, 3).Draw(rt, "forcegcs") == 0,
+		}
+		vmsas := rapid.SampledFrom([]uint32{0, 4}).Draw(rt, "vmsas")
+		seq := rapid.SliceOfN(rapid.SampledFrom(svKinds), 2, 6).Draw(rt, "sequence")
+		shared := newSevValidateOptions(f, vmsas, c)
+		snap := snapSevValidateOptions(shared)
+		before := snap()
+		sawAccept, nontrivial := false, false
+		for i, k := range seq {
+			want := guardSV(func() error {
+				return gcetcbendorsement.SevValidate(ctx, f.svAttestation(k), newSevValidateOptions(f, vmsas, c))
+			})
+			got := guardSV(func() error { return gcetcbendorsement.SevValidate(ctx, f.svAttestation(k), shared) })
+			where := fmt.Sprintf("SevValidate with a shared options value (%s), sequence %v: call %d (%s)", c.label(vmsas), seq, i, k)
+			pr := pristine[key(c, vmsas, k)]
+			switch {
+			case got != nil && strings.HasPrefix(got.Error(), "PANIC") && !(want != nil && strings.HasPrefix(want.Error(), "PANIC")):
+				ev.Violation(rt, "C09/panic-under-interleaving", "%s panicked: %v", where, got)
+				return
+			case got == nil && svMustReject(c, k) && !pr:
+				ev.Violation(rt, "C09/unendorsed-accepted-under-interleaving", "%s was ACCEPTED; it must be rejected whatever was validated before (fresh options now: %s, %v)", where, okStr(want), want)
+				return
+			case (got == nil) != (want == nil):
+				ev.Violation(rt, "C09/result-differs-from-isolated", "%s got %s (%v) but %s with fresh options (%v)", where, okStr(got), got, okStr(want), want)
+				return
+			case (got == nil) != pr:
+				ev.Violation(rt, "C09/result-depends-on-earlier-validations", "%s got %s, and so do fresh options now, but before anything was shared in this process it got %s", where, okStr(got), accStr(pr))
 				return
 			}
-			if sawFetch {
+			if i > 0 && sawAccept && k != seq[i-1] {
 				nontrivial = true
 			}
-			if strings.HasSuffix(k, "/bucket") {
-				sawFetch = true
-			}
+			sawAccept = sawAccept || got == nil
 		}
-		if after := fmt.Sprintf("%p %v %v %v", shared.Endorsement, shared.BasePolicy, shared.Overwrite, shared.ExpectedLaunchVmsas); after != before {
-			ev.Violation(rt, "C09/caller-options-mutated", "SevValidate changed the caller's options across calls %v: before %s after %s", seq, before, after)
+		if after := snap(); after != before {
+			ev.Violation(rt, "C09/caller-options-mutated", "SevValidate changed the caller's options (%s) across calls %v: before %s after %s", c.label(vmsas), seq, before, after)
 			return
 		}
-		ev.Case(name, nontrivial, strings.Join(seq, ","), fmt.Sprintf("len=%d", len(seq)), func() any { return map[string]any{"sequence": seq} })
+		ev.Case(name, nontrivial, c.label(vmsas)+"|"+strings.Join(seq, ","), c.label(vmsas), func() any {
+			return map[string]any{"configuration": c.label(vmsas), "sequence": seq}
+		})
 	})
 }
